@@ -385,7 +385,9 @@ Definition flags_spec (cfg : config) (e : msg_entry) : outcome (list mdiag * pyi
   do items <- classify_all cfg (counter_sorted (me_flags e));
   Ok (flags_diags (c_formats cfg) (is_some (me_plural e)) items, src_info items).
 
-Ltac fin := cbn; unfold py_truthy; rewrite ?orb_true_r, ?orb_false_r;
+(* closes a branch of the step lemma: case analysis on the two atoms of the duplicate test, then on whatever `if` is left *)
+Ltac fin n flag := cbn -[Nat.ltb]; rewrite ?orb_true_r, ?orb_false_r; cbn -[Nat.ltb]; unfold py_truthy;
+  try destruct (Nat.ltb 1 n); try destruct (is_nil flag); cbn; rewrite ?app_nil_r, <- ?app_assoc; try reflexivity;
   repeat match goal with |- context [if ?c then _ else _] => destruct c end; cbn; rewrite ?app_nil_r, <- ?app_assoc; reflexivity.
 
 Lemma lookup_format_mem tbl flag : forall ps tp name, lookup_format tbl ps flag = Some (tp, name) -> mem_key name tbl = true.
@@ -435,20 +437,20 @@ assert (Hstep : forall s flag n, body s (flag, n) =
           end).
 { intros [[[[[[fz out] wrap] mn] mx] rf] ff] flag n. subst body. cbv beta iota zeta. cbn [fst snd].
   unfold classify, s_fuzzy, s_wrap, s_no_wrap, s_range, s_format, s_markdown, ps_mem. cbn [existsb].
-  destruct (str_eqb flag [102;117;122;122;121]%N) eqn:E1; [fin|].
-  destruct (str_eqb flag [119;114;97;112]%N) eqn:E2; [destruct wrap as [[|]|]; fin|].
-  destruct (str_eqb flag [110;111;45;119;114;97;112]%N) eqn:E3; [destruct wrap as [[|]|]; fin|].
+  destruct (str_eqb flag [102;117;122;122;121]%N) eqn:E1; [fin n flag|].
+  destruct (str_eqb flag [119;114;97;112]%N) eqn:E2; [destruct wrap as [[|]|]; fin n flag|].
+  destruct (str_eqb flag [110;111;45;119;114;97;112]%N) eqn:E3; [destruct wrap as [[|]|]; fin n flag|].
   cbn [orb].
   destruct (starts_with [114;97;110;103;101;58]%N flag) eqn:E4.
-  { rewrite parse_range_src. destruct (re_range (py_strip [32;9;13;12;11]%N (skipn 6 flag))) as [m|]; [|destruct (me_plural e); fin].
+  { rewrite parse_range_src. destruct (re_range (py_strip [32;9;13;12;11]%N (skipn 6 flag))) as [m|]; [|destruct (me_plural e); fin n flag].
     destruct (py_int (c_maxd cfg) (fst m)) as [i|[]|c]; [|reflexivity].
     destruct (py_int (c_maxd cfg) (snd m)) as [j|[]|c]; [|reflexivity].
-    cbn [obind]. destruct (i <? j)%Z; destruct (me_plural e); fin. }
+    cbn [obind]. destruct (i <? j)%Z; destruct (me_plural e); fin n flag. }
   destruct (ends_with [45;102;111;114;109;97;116]%N flag) eqn:E5.
   { change [[110;111;45]; [112;111;115;115;105;98;108;101;45]; [105;109;112;111;115;115;105;98;108;101;45]; []]%N with (map snd prefixes).
     rewrite (prefix_loop (c_formats cfg) flag) by (first [intros; reflexivity | apply prefixes_rstrip]).
-    destruct (lookup_format (c_formats cfg) prefixes flag) as [[tp name]|]; fin. }
-  destruct (str_eqb flag [109;97;114;107;100;111;119;110;45;116;101;120;116]%N) eqn:E6; fin. }
+    destruct (lookup_format (c_formats cfg) prefixes flag) as [[tp name]|]; fin n flag. }
+  destruct (str_eqb flag [109;97;114;107;100;111;119;110;45;116;101;120;116]%N) eqn:E6; fin n flag. }
 rewrite (flags_loop cfg (is_some (me_plural e)) body Hstep). clear Hstep. clearbody body. clear body.
 subst y. rewrite counter_sorted_src.
 destruct (classify_all cfg (counter_sorted (me_flags e))) as [items|[]|c] eqn:Ecl; [|reflexivity].
